@@ -533,6 +533,11 @@ def subst_index(val, pattern, actual):
 
 def term_getitem(it, base, idx, env, node):
     f = fname(base)
+    # X.sizes["dim"]: the length of the coordinate that names the dimension (the one coordinate of that name X is built from)
+    if f == "item" and base.args[1] == Str("sizes") and T.is_str_symbol(to_term(idx)):
+        coords = {n for n in sp.preorder_traversal(base.args[0]) if fname(n) == "item" and n.args[1] == to_term(idx)}
+        if len(coords) == 1:
+            return op("len", next(iter(coords)))
     # B[i][j] == B[i, j] for loop indices i, j (rows walked one by one)
     if f == "item" and isinstance(base.args[1], sp.Symbol) and str(base.args[1]).startswith("~i:") \
             and isinstance(idx, sp.Symbol) and str(idx).startswith("~i:"):
